@@ -528,8 +528,19 @@ class Runner:
                                                  detail=('refuted after the loop cut; bounded unrolling (k<=%d) found no concrete input' % u.bounded_k) if ks else
                                                  'refuted after the loop cut; no native harness for this unit, so no concrete input is searched'))
             else:
-                for o in refuted:
-                    self.undecided.append((o.name, 'auxiliary obligation refuted (counterexample to induction); bounded search k<=%d found no failing input' % u.bounded_k))
+                loop_free = not u.contract.loops and not u.contract.callee_loops
+                cut_fail = [o for o in refuted if o.kind == 'assert_at']
+                if loop_free and cut_fail:
+                    # an intermediate assertion of a loop-free function is reached from the function's entry on every path through it: its
+                    # refutation is not a counterexample to induction but a failed obligation of the proof (the clauses after it were
+                    # checked under the assumption that it holds)
+                    o = cut_fail[0]
+                    rp = self.write_replay(o.name, o.clause, 'custom', None, u.harness, (o.result.get('model') or '')[:3000])
+                    self.violations.append(Violation(o.name, o.clause, o.func, inputs=None, replay=rp, reproduced=False,
+                                                     detail='intermediate assertion of a loop-free function refuted; no concrete input replayed'))
+                else:
+                    for o in refuted:
+                        self.undecided.append((o.name, 'auxiliary obligation refuted (counterexample to induction); bounded search k<=%d found no failing input' % u.bounded_k))
 
 
 def main(pid, build, argv=None):
